@@ -292,6 +292,9 @@ def run(ctx):
             ctx.add("oracle", "listwrapper-" + shape, "ir.modules assignment of a module already in the same list / named twice in the assigned list: " + "; ".join(bad[:2]),
                     {"shape": shape, "problems": bad})
     worldgen.compare(ctx, hists, "cache", "C03 uuid table correspondence")
+    # equal UUIDs in different IRs (outside World.v's guard): Model/TwinCache.v against two loads of one file
+    import twinleg
+    twinleg.run(ctx, g, ctx.rng, 40 if ctx.quick else 800, 25 if ctx.quick else 40, "twin-cache-model")
     import loadedworld
     lh = loadedworld.stream(ctx, g, ctx.rng, 12 if ctx.quick else 300, 15 if ctx.quick else 30, "loaded", what={"cache", "forest"})
     ctx.cov["histories_continued_from_loaded_files"] = len(lh)
